@@ -40,7 +40,16 @@ package pcache
 //@   loop 1: iteration ensures did <==> !skipRule(str(ctxExtended.providers[rangeindex].ID), str(pid), elemOrZero(ctxExtended.metadatas, rangeindex), metadata)
 //@   loop 2: iteration ensures did <==> !skipRule(str(extended.Providers[rangeindex].ID), str(pid), elemOrZero(extended.Metadatas, rangeindex), metadata)
 
+// Every contextual record is indexed under its context ID (the last record wins
+// on duplicate IDs) with its own override flag and lists; nothing is dropped.
+//@ spec func ctxKey(p val, j int) int = str(p.ExtendedProviders.Contextual[j].ContextID)
+//@ spec func lastOcc(p val, j int, n int) bool = forall(q2, j + 1, n, ctxKey(p, q2) != ctxKey(p, j))
 //@ func apiToCacheInfo
 //@   property C17
 //@   ensures provider == nil <==> result == nil
 //@   ensures result != nil ==> result.provider == provider
+//@   ensures result != nil && provider.ExtendedProviders != nil ==> forall(j, 0, len(provider.ExtendedProviders.Contextual), has(result.ctxExtended, provider.ExtendedProviders.Contextual[j].ContextID))
+//@   ensures result != nil && provider.ExtendedProviders != nil ==> forall(j, 0, len(provider.ExtendedProviders.Contextual), implies(lastOcc(provider, j, len(provider.ExtendedProviders.Contextual)), result.ctxExtended[provider.ExtendedProviders.Contextual[j].ContextID].override == provider.ExtendedProviders.Contextual[j].Override && result.ctxExtended[provider.ExtendedProviders.Contextual[j].ContextID].providers == provider.ExtendedProviders.Contextual[j].Providers && result.ctxExtended[provider.ExtendedProviders.Contextual[j].ContextID].metadatas == provider.ExtendedProviders.Contextual[j].Metadatas))
+//@   loop 1: invariant cxps != nil && isfresh(cxps) && provider != nil && provider.ExtendedProviders != nil && extProviders == provider.ExtendedProviders && rangeindex < len(provider.ExtendedProviders.Contextual)
+//@   loop 1: invariant forall(j, 0, rangeindex + 1, has(cxps, provider.ExtendedProviders.Contextual[j].ContextID))
+//@   loop 1: invariant forall(j, 0, rangeindex + 1, implies(lastOcc(provider, j, rangeindex + 1), cxps[provider.ExtendedProviders.Contextual[j].ContextID].override == provider.ExtendedProviders.Contextual[j].Override && cxps[provider.ExtendedProviders.Contextual[j].ContextID].providers == provider.ExtendedProviders.Contextual[j].Providers && cxps[provider.ExtendedProviders.Contextual[j].ContextID].metadatas == provider.ExtendedProviders.Contextual[j].Metadatas))
